@@ -31,7 +31,9 @@ NOT_PROVED = [
 ASSUMPTIONS = ["rectangles are half-open (a,b] with a < b in every coordinate",
                "the implied joint density is read as nu_1(x) nu_2(y) * sign(u1 u2) * x_first_derivative(U_1(x), U_2(y)) (see C11: the code "
                "returns sign(prod u) times the mixed partial)"]
-TRUSTED = ["scipy.integrate.dblquad for the density check", "zoo.TableMeasure (exact piecewise-constant Levy density) as synthetic margin"]
+TRUSTED = ["scipy.integrate.dblquad for the density check", "zoo.TableMeasure (exact piecewise-constant Levy density) as synthetic margin",
+           "the theorems are stated for ring-valued tail-integral families; the driver runs the same generic definitions with IEEE-like "
+           "values (EVal: rationals + inf/nan), which coincide with the ring operations on finite values"]
 
 INF = math.inf
 
@@ -62,29 +64,11 @@ def guarded(probe):
 
 
 # ------------------------------------------------------------------------------------------------ models from JSON-able specs
-class ExactTable(zoo.TableMeasure):
-    """zoo.TableMeasure with the infinite end points clipped by sign (zoo's `_exact` treats a = +inf like -inf, so that
-    integrate(inf, inf) would be the total mass; the tail integral at +-inf must be 0)"""
-
-    def _exact(self, a, b, n):
-        from fractions import Fraction
-        if a > b:
-            raise ValueError("Expected a<b when integrating the levy measure")
-        clip = lambda x: self.knots[0] if x == -INF else self.knots[-1] if x == INF else min(max(Fraction(x), self.knots[0]), self.knots[-1])
-        lo, hi = clip(a), clip(b)
-        tot = Fraction(0)
-        for k0, k1, h in zip(self.knots, self.knots[1:], self.heights):
-            x0, x1 = max(k0, lo), min(k1, hi)
-            if x0 < x1:
-                tot += h * (x1 ** (n + 1) - x0 ** (n + 1)) / (n + 1)
-        return tot
-
-
 class TableModel:
     """minimal margin object accepted by LevyCopulaModel: a Levy measure and an initial value"""
 
     def __init__(self, knots, heights):
-        self.levy_triplet = types.SimpleNamespace(nu=ExactTable(knots, heights))
+        self.levy_triplet = types.SimpleNamespace(nu=zoo.TableMeasure(knots, heights))
 
     def x0_value(self):
         return 0.0
@@ -608,6 +592,11 @@ def run(ctx, oracle_only=False, factor=1):
         p_fast_vs_general(ctx, inp)
         if not oracle_only:
             p_model_table(ctx, inp)
+    # --- independent copula at an all-infinite corner (recorded C11 fault seen through the mass): forced once per run
+    for fams in (("vg", "cgmy"), ("cgmy", "vg", "vg")):
+        spec = dict(margins=[dict(fam=f, params={}) for f in fams], cop=dict(cop="independent"))
+        d = len(fams)
+        p_nonneg(ctx, dict(spec=spec, I=list(range(d)), a=[0.0] * d, b=[round(rng.uniform(0.05, 0.3), 3) for _ in range(d)]))
     # --- implied joint density (quadrature) ---------------------------------------------------------------------------
     for rep in range(ctx.n(3, 30) * factor):
         spec = dict(margins=[dict(fam=f, params={}) for f in (rng.choice(["hem", "merton", "vg", "cgmy"]) for _ in range(2))],
